@@ -902,6 +902,8 @@ func c19Run(in0 interface{}) Result {
 		return c19RunReplace(in)
 	case "basicauth", "http", "tlsraw":
 		return c19RunTotal(in)
+	case "hellotrail", "hellocut", "helloconn", "pool", "fseg", "label", "xff", "ws":
+		return c19RunB(in)
 	}
 	panic("bad kind " + in.Kind)
 }
@@ -1520,7 +1522,10 @@ func c19Mutate(r *Rand, b []byte) []byte {
 
 func c19InfoFromSeed(i int) *c19Info {
 	b, _ := hex.DecodeString(c19Seeds[i].hex)
-	return c19InfoOf(httpserver.VerifC19ParseRawClientHello(b))
+	out := &c19Info{}
+	// a parser that panics on a captured hello must not take the generator down: the parse cases report it
+	c19Try(func() { out = c19InfoOf(httpserver.VerifC19ParseRawClientHello(b)) })
+	return out
 }
 
 func c19MutInfo(r *Rand, i *c19Info) *c19Info {
@@ -1785,7 +1790,11 @@ func c19Gen(r *Rand, tier string) []interface{} {
 		}
 	}
 	for i := 0; i < 300*mult; i++ {
-		add(&c19In{Kind: "hello", Hello: c19GenHello(r)})
+		if i%2 == 0 {
+			add(&c19In{Kind: "hello", Hello: c19GenHello(r)})
+		} else { // server_name, ALPN, duplicate supported_groups / ec_point_formats, large unknown bodies
+			add(&c19In{Kind: "hello", Hello: c19GenHelloRich(r)})
+		}
 	}
 
 	// --- heuristics and the handler's decision
@@ -1972,6 +1981,7 @@ func c19Gen(r *Rand, tier string) []interface{} {
 	for i := 0; i < 150*mult; i++ {
 		add(&c19In{Kind: "http", Data: c19H(c19GenRaw(r))})
 	}
+	c19GenB(r, tier, add)
 	_ = sort.Strings
 	return out
 }
@@ -1979,7 +1989,7 @@ func c19Gen(r *Rand, tier string) []interface{} {
 func init() {
 	register(&Property{
 		ID: "C19", Imports: "V.Lib V.C19_Model", Judge: "judge", Shard: 250,
-		Rule: "cases = real parseRawClientHello / looksLike* / tlsHandler / getVersion / clientHelloConn (hook), push middleware on Link headers, FastCGI client+handler against a scripted loopback responder, replacer, basicauth, raw requests to an in-process server, raw ClientHello records to the running TLS server; hellos whose LAST extension (every type) has declared length 0..3 with a body of exactly that size and inner list lengths right/off by one are enumerated through the parser, clientHelloConn and the TLS server; non-trivial = hello of >=42 bytes, heuristic evaluated, UA that is checked, multi-read delivery of a complete record, Link value that pushes or panics, record stream with data or a framing error, pair near the truncation limit, template with braces, request answered other than 400; distinct = distinct Coq case term",
+		Rule: "cases = real parseRawClientHello / looksLike* / tlsHandler / getVersion / clientHelloConn (hook), push middleware on Link headers, FastCGI client+handler against a scripted loopback responder and over a scripted short-read connection, replacer ({labelN} on hostile Hosts), proxy middleware in front of a loopback backend (X-Forwarded-For), websocket text tunnel in front of /bin/cat, basicauth, raw requests to an in-process server, raw ClientHello records to the running TLS server and connections that leave bytes in its pooled tee buffers before a real handshake; structured hellos (server_name, ALPN, groups, points, unknown) whole, with trailing bytes, cut at every field boundary, and end to end as record + following bytes in random read segmentations; hellos whose LAST extension (every type) has declared length 0..3 with a body of exactly that size and inner list lengths right/off by one are enumerated through the parser, clientHelloConn and the TLS server; non-trivial = hello of >=42 bytes, heuristic evaluated, UA that is checked, multi-read delivery of a complete record, Link value that pushes or panics, record stream with data or a framing error, pair near the truncation limit, template with braces, request answered other than 400, label found, forwarded header seen, message with bytes held back; distinct = distinct Coq case term",
 		Gen:  c19Gen,
 		Decode: func(raw json.RawMessage) (interface{}, error) {
 			in := &c19In{}
